@@ -85,5 +85,52 @@ theorem C05_global_never_reverted (E : Env) (f : Nat) (e : Expr) (s s' : PState)
 /-- non-vacuity: the hypotheses hold of the initial state of every parse -/
 example (E : Env) : MemoOK (initState E) ∧ GInv E (initState E) := initState_ok E
 
+/-! ### kernel-evaluated witness of finding D6 (the model reproduces the code) -/
+
+namespace WitnessC05
+
+def lit (id : Nat) (s : String) : Expr := .lit id (s.toList.map (·.toNat)) false ("\"" ++ s ++ "\"")
+
+/-- `S <- E "!" / E "?"` ; `E <- E "+" N #{ n++ } / N` (leader) ; `N <- "1" / "2"` -/
+def rulesD6 : List Rule :=
+  [ { name := "S", displayName := "", leader := false, leftRecursive := false,
+      expr := .choice 1 1 6 [.seq 2 [.ruleRef 3 "E", lit 4 "!"], .seq 5 [.ruleRef 6 "E", lit 7 "?"]] },
+    { name := "E", displayName := "", leader := true, leftRecursive := true,
+      expr := .choice 8 2 6 [.seq 9 [.ruleRef 10 "E", lit 11 "+", .ruleRef 12 "N", .stateCode 13 1], .ruleRef 14 "N"] },
+    { name := "N", displayName := "", leader := false, leftRecursive := false,
+      expr := .choice 15 3 6 [lit 16 "1", lit 17 "2"] } ]
+
+/-- the iteration the grammar denotes: `E <- N ("+" N #{ n++ })*` -/
+def rulesD6iter : List Rule :=
+  [ { name := "S", displayName := "", leader := false, leftRecursive := false,
+      expr := .choice 1 1 6 [.seq 2 [.ruleRef 3 "E", lit 4 "!"], .seq 5 [.ruleRef 6 "E", lit 7 "?"]] },
+    { name := "E", displayName := "", leader := false, leftRecursive := false,
+      expr := .seq 8 [.ruleRef 9 "N", .zeroOrMore 10 (.seq 11 [lit 12 "+", .ruleRef 13 "N", .stateCode 14 1])] },
+    { name := "N", displayName := "", leader := false, leftRecursive := false,
+      expr := .choice 15 3 6 [lit 16 "1", lit 17 "2"] } ]
+
+def counter (st : Store) : Int := match st.get "n" with | some (.int k) => k | _ => 0
+
+def envD6 (rules : List Rule) (lr : Bool) : Env :=
+  { flags := { optimize := false, globalState := true, leftRec := lr, basicLatin := false },
+    opts := {}, rules := rules,
+    code := { args := fun _ => [],
+              run := fun _ ctx => { state := ctx.state.set "n" (.int (counter ctx.state + 1)), global := ctx.global } },
+    toLower := id, input := "1+2?".toList.map (·.toNat) }
+
+def finalCount : Final → Option Int
+  | .ret _ [] s => some (counter s.state)
+  | _ => none
+
+/-- **Finding D6 on the model**: `1+2?` is matched by the second alternative of `S`, whose `E` contains
+    one `#{ n++ }`; the iterative grammar ends with `n = 1`, the left-recursive one with `n = 0`: the second
+    `E` is answered from the leader's memo entry (written while the first alternative was tried), and the
+    state effects of the memoised parse — rolled back when the first alternative failed — are not replayed. -/
+theorem C05_D6_leader_memo_hit_drops_state_effects :
+    finalCount (parse (envD6 rulesD6iter false) 40) = some 1 ∧ finalCount (parse (envD6 rulesD6 true) 40) = some 0 := by
+  decide
+
+end WitnessC05
+
 end RT
 end PV
